@@ -719,7 +719,7 @@ func execAPI(ops []Op) (out []string) {
 	select {
 	case o := <-done:
 		return o
-	case <-time.After(limit):
+	case <-hangAfter(limit):
 		atomic.AddInt32(&c10Hung, 1)
 		return []string{fmt.Sprintf("X timeout => %v", limit)}
 	}
